@@ -458,3 +458,33 @@ func VH_arrayBig(n int, spare int) {
 		}
 	}
 }
+
+// badIndexTexts: strings that are not whole numbers — fractional numerals in either script,
+// negative fractions that truncate to 0, non-numeric text, the empty string.
+var badIndexTexts = []string{"1.5", "-0.5", "2.9", "\u09e6.\u09eb", "\u09e7.\u09ef", "abc", "", "0.999"}
+
+// VH_stringIndex (C11): an index given as a string that is not a whole number is fractional or
+// non-numeric whatever the code makes of numeric strings: reading, writing and রিমুভ with it are
+// runtime errors and leave the array as it was.
+func VH_stringIndex(op int) {
+	in := NewInterpreter()
+	env := environment.NewEnvironmentWithParent(in.globals)
+	a := []interface{}{10.0, 20.0, 30.0}
+	env.Define("a", a)
+	s := badIndexTexts[verifChoice(len(badIndexTexts))]
+	idx := lit(stringLiteralValue([]rune(s)), 3)
+	var node ast.Expr
+	switch op {
+	case 0:
+		node = &ast.ArrayAccess{Array: ident("a", 3), Index: idx, Line: 3}
+	case 1:
+		node = &ast.ArrayAssignment{Array: ident("a", 3), Index: idx, Value: lit(99.0, 3), Line: 3}
+	default:
+		node = &ast.Call{Callee: &ast.Literal{Value: NativeRemoveFn{}, Line: 3}, Paren: tok(token.RIGHT_PAREN, ")", 3), Arguments: []ast.Expr{ident("a", 3), idx}}
+	}
+	utils.HadError, utils.HadRuntimeError = false, false
+	verifClearEvents()
+	got, _ := in.eval(node, env, false)
+	verifAssert("bad-index-is-an-error", utils.HadRuntimeError && got == nil && hvCountStderr() >= 1)
+	verifAssert("failed-operation-leaves-the-array-unchanged", len(a) == 3 && hvIdentical(a[0], 10.0) && hvIdentical(a[1], 20.0) && hvIdentical(a[2], 30.0))
+}
